@@ -348,7 +348,9 @@ def rule_n_repl(ctx):
             # Occupied(self): payload is the handle itself
             q = b.op_path(occ[0][1]["rv"]["ops"][0])
             if q is None or q.root != 1 or q.fields():
-                why.append("the Occupied result is not the handle itself")
+                # or a handle of the same type rebuilt field by field from the handle itself (directly, or through a constructor function)
+                if not _rebuilt_from_self(ctx, b, occ[0][1]["rv"]["ops"][0]):
+                    why.append("the Occupied result is not the handle itself")
             # deciding switch
             decided = _repl_decision(ctx, b, C_, occ[0][0], vac[0][0])
             if decided is not True:
@@ -359,6 +361,41 @@ def rule_n_repl(ctx):
     if n < 2:
         R.anchor("fns", "expected 2 replace_entry_with, found %d" % n)
     return R
+
+
+def _rebuilt_from_self(ctx, b, op, depth=0):
+    """the operand is a value of self's own type whose every field is the same field of self (struct literal or constructor call)"""
+    self_adt = ctx.facts.types[b.locals[1]["ty"]].get("adt")
+    d = b.source_def(op)
+    if d is None or self_adt is None:
+        return False
+    if d[1] == "assign" and d[2]["rv"]["k"] == "aggregate" and d[2]["rv"].get("adt") == self_adt:
+        for i, o in enumerate(d[2]["rv"]["ops"]):
+            q = b.op_path(o)
+            fs = q.fields() if q is not None else []
+            if q is None or q.root != 1 or len(fs) != 1 or fs[0][1] != self_adt or fs[0][2] != i:
+                return False
+        return True
+    if d[1] == "call" and depth < 2:
+        c = ctx.call_at(b, d[0].bb)
+        lc = c.local_callee()
+        if lc is None or ctx.facts.types[lc.locals[0]["ty"]].get("adt") != self_adt:
+            return False
+        # constructor: its result is a struct literal whose field i is its parameter p(i); the call passes self.field i for p(i)
+        for rb in lc.return_blocks():
+            for dd in lc.defs_reaching(Loc(rb, len(lc.stmts(rb))), 0):
+                if dd[3] != "assign" or dd[4]["rv"]["k"] != "aggregate" or dd[4]["rv"].get("adt") != self_adt:
+                    return False
+                for i, o in enumerate(dd[4]["rv"]["ops"]):
+                    qp = lc.op_path(o)
+                    if qp is None or qp.fields() or not (1 <= qp.root <= lc.arg_count):
+                        return False
+                    qa = c.arg_path(qp.root - 1)
+                    fs = qa.fields() if qa is not None else []
+                    if qa is None or qa.root != 1 or len(fs) != 1 or fs[0][1] != self_adt or fs[0][2] != i:
+                        return False
+        return True
+    return False
 
 
 def _repl_decision(ctx, b, C_, occ_loc, vac_loc):
